@@ -52,6 +52,21 @@ Definition run_qcase_the (n : nat) (c : qcase) : string :=
     end in
   "CASE " ++ show_nat n ++ " M " ++ model ++ " S " ++ spec.
 
+(* a pool of queries over the same heap (C04): the answer of every query of the pool on untouched data, model and specification *)
+Definition run_qpool (n : nat) (cs : list qcase) : string :=
+  let one (c : qcase) : string * string :=
+    let d := dom_of (qc_doms c) in
+    (match qc_cond c with
+     | None => "R " ++ show_rows (run_query (qc_heap c) d (qc_sel c) None)
+     | Some sc => match elab sc with
+                  | Some ic => "R " ++ show_rows (run_query (qc_heap c) d (qc_sel c) (Some ic))
+                  | None => "X elab"
+                  end
+     end,
+     "R " ++ show_rows (spec_rows (qc_heap c) d (qc_binders c) (qc_sel c) (qc_cond c))) in
+  let rs := map one cs in
+  "CASE " ++ show_nat n ++ " M " ++ String.concat " || " (map fst rs) ++ " S " ++ String.concat " || " (map snd rs).
+
 (* metamorphic pairs (C18): the model runs the rewritten query, the specification answers the original one *)
 Definition run_qpair (n : nat) (orig variant : qcase) : string :=
   let d := dom_of (qc_doms orig) in
